@@ -1608,8 +1608,20 @@ func (ex *Exec) makeSlice(g *G, fr *Frame, x *ssa.MakeSlice) {
 		return
 	}
 	if n > int64(ex.cfg.MaxAlloc) || c > int64(ex.cfg.MaxAlloc) {
-		if ex.allocCap > 0 && c <= ex.allocCap {
-			panic(abortf("concrete allocation of %d elements exceeds executor limit", c))
+		if ex.allocCap > 0 && c > ex.allocCap {
+			ex.obligation(ex.ts.False(), fmt.Sprintf("allocation bound: make of %d elements exceeds %d", c, ex.allocCap), "alloc")
+		}
+		if n == c && n <= 1<<31 {
+			// huge but bounded allocation (e.g. a garbage frame length below the 1 GB cap): only a prefix is
+			// materialised; touching anything beyond it is reported as inconclusive
+			k := ex.cfg.LazyK
+			a := ex.newAgg(k + 1)
+			for i := range a.E {
+				a.E[i] = ex.zero(et)
+			}
+			ex.set(fr, x, SliceV{A: a, Off: 0, Len: k + 1, Cap: k + 1, Lazy: ex.intTerm(n), NonNil: true})
+			fr.ip++
+			return
 		}
 		panic(abortf("allocation of %d elements exceeds executor limit %d", c, ex.cfg.MaxAlloc))
 	}
